@@ -333,6 +333,10 @@ class HashClient:
 
         try:
             failed = client.set_many(values, *args, **kwargs)
+        except OSError as e:
+            # a network failure must reach _safely_run_set_many even with
+            # ignore_exc, otherwise the server is never marked as failing
+            return succeeded, failed, e
         except Exception as e:
             if not self.ignore_exc:
                 return succeeded, failed, e
